@@ -79,6 +79,28 @@ fn from_prim<T: FromPrimitive>(ty: &str, n: i128) -> Option<Option<T>> {
         _ => return None,
     })
 }
+/// `Display for Weekday` under a format spec; `align`: d = none written, l `<`, r `>`, c `^`; `star`: fill `*`
+fn fmt_wd(w: Weekday, width: Option<usize>, prec: Option<usize>, align: char, star: bool) -> String {
+    macro_rules! f {
+        ($sw:literal, $sp:literal, $swp:literal, $sn:literal) => {
+            match (width, prec) {
+                (Some(wd), Some(p)) => format!($swp, w, wd = wd, p = p),
+                (Some(wd), None) => format!($sw, w, wd = wd),
+                (None, Some(p)) => format!($sp, w, p = p),
+                (None, None) => format!($sn, w),
+            }
+        };
+    }
+    match (align, star) {
+        ('l', false) => f!("{:<wd$}", "{:<.p$}", "{:<wd$.p$}", "{:<}"),
+        ('l', true) => f!("{:*<wd$}", "{:*<.p$}", "{:*<wd$.p$}", "{:*<}"),
+        ('r', false) => f!("{:>wd$}", "{:>.p$}", "{:>wd$.p$}", "{:>}"),
+        ('r', true) => f!("{:*>wd$}", "{:*>.p$}", "{:*>wd$.p$}", "{:*>}"),
+        ('c', false) => f!("{:^wd$}", "{:^.p$}", "{:^wd$.p$}", "{:^}"),
+        ('c', true) => f!("{:*^wd$}", "{:*^.p$}", "{:*^wd$.p$}", "{:*^}"),
+        _ => f!("{:wd$}", "{:.p$}", "{:wd$.p$}", "{}"),
+    }
+}
 const PRIM_TYPES: [&str; 11] = ["i8", "i16", "i32", "i64", "isize", "i128", "u8", "u16", "u32", "u64", "usize"];
 const WD_NAMES: [&str; 7] = ["Mon", "Tue", "Wed", "Thu", "Fri", "Sat", "Sun"];
 
@@ -108,6 +130,28 @@ pub fn run(c: &mut Ctx) {
         }
         if guard(|| Weekday::try_from(w.num_days_from_monday() as u8).ok() == Some(*w)) != Ok(true) {
             c.fail("Weekday::try_from(num_days_from_monday) is not the weekday", &format!("{:?}", w));
+        }
+        // Display under format flags (`f.pad`): precision cuts, width fills on the side the alignment says
+        for width in [None, Some(0usize), Some(2), Some(3), Some(4), Some(5), Some(8)] {
+            for prec in [None, Some(0usize), Some(1), Some(2), Some(3), Some(4)] {
+                for (align, star) in [('d', false), ('l', false), ('l', true), ('r', false), ('r', true), ('c', false), ('c', true)] {
+                    let got = guard(|| fmt_wd(*w, width, prec, align, star));
+                    let fill = if star { '*' } else { ' ' };
+                    c.op(
+                        &format!("wd.fmt {i} {} {} {align} {}", opt(width), opt(prec), fill as u32),
+                        &match &got { Ok(s) => hex(s.as_bytes()), Err(()) => "panic".into() },
+                    );
+                    c.count("fmt:weekday-flags");
+                    // direct oracle, by hand
+                    let core = &WD_NAMES[i][..prec.unwrap_or(3).min(3)];
+                    let n = width.unwrap_or(0).saturating_sub(core.len());
+                    let (pre, post) = match align { 'r' => (n, 0), 'c' => (n / 2, n - n / 2), _ => (0, n) };
+                    let want = format!("{}{}{}", fill.to_string().repeat(pre), core, fill.to_string().repeat(post));
+                    if got != Ok(want.clone()) {
+                        c.fail("weekday Display under width/precision flags is not the padded, cut name", &format!("{:?} width {:?} precision {:?} align {align}: {:?}, expected {:?}", w, width, prec, got, want));
+                    }
+                }
+            }
         }
         let mut x = *w;
         for k in 1..=7 {
@@ -222,6 +266,12 @@ pub fn run(c: &mut Ctx) {
         }
         c.count("fmt:set");
     }
+    // observation, not judged (outside the statement): the iterator overrides `len` but not `size_hint`
+    c.sample(&format!(
+        "not judged: WeekdaySet::ALL.iter(Mon).size_hint() = {:?} while len() = {}",
+        WeekdaySet::ALL.iter(Weekday::Mon).size_hint(),
+        WeekdaySet::ALL.iter(Weekday::Mon).len()
+    ));
     let nsched = c.n(7, 9);
     for a in 0u8..128 {
         let sa = set_of(a);
